@@ -333,42 +333,25 @@ Proof.
   cbn in Hin. destruct Hin as [H|[H|[H|[H|[]]]]]; inversion H; subst; repeat split; reflexivity.
 Qed.
 
-(* ---------------------------------------------------------------- the context gap *)
-(* Context::to_json_value does not apply check_for_reserved_keys to the top-level keys: a
-   one-entry context whose key is `__entity` and whose value looks like {type,id} serialises, and
-   the result does not parse back to a context. *)
-Definition ctx_witness : list (str * rval) :=
-  [(k_entity, RRecord [(k_type, RString (s2str "A"%string)); (k_id, RString (s2str "x"%string))])].
+(* ---------------------------------------------------------------- contexts *)
+(* Context::to_json_value refuses reserved top-level keys (4b26962), so a context is serialised
+   exactly like the record of its entries and the round trip needs no condition on the keys *)
+Lemma context_as_record : forall pairs, context_to_json pairs = value_to_json (RRecord pairs).
+Proof. intros pairs. reflexivity. Qed.
 
-Lemma context_rt_refuted :
-  exists pairs j, context_to_json pairs = JOk j /\ context_from_json None j = JErr ENotARecord.
-Proof.
-  exists ctx_witness.
-  let r := eval vm_compute in (context_to_json ctx_witness) in
-  match r with JOk ?x => exists x end.
-  split; vm_compute; reflexivity.
-Qed.
-
-(* when the keys of the context are not reserved the round trip holds *)
 Lemma context_rt : forall pairs j,
-  existsb reserved_key (map fst pairs) = false ->
   wf_rval (RRecord pairs) = true -> rval_evaluable (RRecord pairs) = true ->
   context_to_json pairs = JOk j -> context_from_json None j = JOk pairs.
 Proof.
-  intros pairs j Hres Hwf Hev Hj.
-  assert (Hv : value_to_json (RRecord pairs) = JOk j).
-  { cbn [value_to_json]. rewrite Hres. exact Hj. }
-  unfold context_from_json. rewrite (value_rt _ _ Hwf Hv). cbn [jbind]. rewrite Hev. reflexivity.
+  intros pairs j Hwf Hev Hj. rewrite context_as_record in Hj.
+  unfold context_from_json. rewrite (value_rt _ _ Hwf Hj). cbn [jbind]. rewrite Hev. reflexivity.
 Qed.
 
-(* ---------------------------------------------------------------- the repaired context serialiser *)
-Lemma context_rt_fixed : forall pairs j,
-  wf_rval (RRecord pairs) = true -> rval_evaluable (RRecord pairs) = true ->
-  context_to_json_fixed pairs = JOk j -> context_from_json None j = JOk pairs.
+(* and it is refused exactly when a reserved key occurs at the top level or below *)
+Lemma context_reserved : forall pairs, calls_nonempty (RRecord pairs) = true ->
+  ((exists e, context_to_json pairs = JErr e) <-> has_reserved (RRecord pairs) = true).
 Proof.
-  intros pairs j Hwf Hev Hj. unfold context_to_json_fixed in Hj.
-  destruct (existsb reserved_key (map fst pairs)) eqn:Hres; [discriminate|].
-  exact (context_rt pairs j Hres Hwf Hev Hj).
+  intros pairs Hc. rewrite context_as_record. exact (proj1 (reserved_iff (RRecord pairs) Hc)).
 Qed.
 
 (* ---------------------------------------------------------------- entity level *)
@@ -628,4 +611,143 @@ Proof.
   intros t v j je Hv Hwf Hje. split.
   - exact (variant_parse t v j Hv).
   - exact (value_rt v je Hwf Hje).
+Qed.
+
+(* ---------------------------------------------------------------- store level *)
+Lemma juid_eqb_eq a b : juid_eqb a b = true <-> a = b.
+Proof.
+  destruct a as [t i], b as [t' i']. unfold juid_eqb. cbn [jty jid]. rewrite andb_true_iff, !str_eqb_eq.
+  split; [intros [-> ->]; reflexivity | intros H; inversion H; auto].
+Qed.
+
+Lemma juid_mem_In u l : juid_mem u l = true <-> In u l.
+Proof.
+  unfold juid_mem. rewrite existsb_exists. split.
+  - intros [x [Hin E]]. apply juid_eqb_eq in E. subst. exact Hin.
+  - intros Hin. exists u. split; [exact Hin | apply juid_eqb_eq; reflexivity].
+Qed.
+
+Lemma juid_dedup_In u l : In u (juid_dedup l) <-> In u l.
+Proof.
+  induction l as [|x l IH]; [tauto|]. cbn [juid_dedup]. destruct (juid_mem x l) eqn:E.
+  - rewrite IH. split; [right; assumption|]. intros [->|H]; [apply juid_mem_In; exact E | exact H].
+  - cbn [In]. rewrite IH. tauto.
+Qed.
+
+(* the ancestors of every member that is present are members *)
+Definition closed_set (st : list jentity) (a : list juid) : Prop :=
+  forall p e', In p a -> find_entity p st = Some e' -> incl (je_anc e') a.
+
+Definition same_set (a b : list juid) : Prop := forall u, In u a <-> In u b.
+
+Lemma closed_same st a b : same_set a b -> closed_set st a -> closed_set st b.
+Proof.
+  intros Hs Hc p e' Hp Hf u Hu. apply Hs. apply (Hc p e'); [apply Hs; exact Hp | exact Hf | exact Hu].
+Qed.
+
+Lemma anc_step_same st a : closed_set st a -> same_set (anc_step st a) a.
+Proof.
+  intros Hc u. unfold anc_step. rewrite juid_dedup_In, in_app_iff. split; [|tauto].
+  intros [H|H]; [exact H|]. apply in_flat_map in H. destruct H as [p [Hp Hu]].
+  destruct (find_entity p st) as [e'|] eqn:Ef; [|destruct Hu].
+  exact (Hc p e' Hp Ef u Hu).
+Qed.
+
+Lemma anc_iter_same st : forall n a, closed_set st a -> same_set (anc_iter n st a) a.
+Proof.
+  induction n as [|n IH]; intros a Hc; [intros u; reflexivity|].
+  cbn [anc_iter]. pose proof (anc_step_same st a Hc) as Hs.
+  assert (Hc' : closed_set st (anc_step st a)).
+  { apply (closed_same st a); [intros u; symmetry; apply Hs | exact Hc]. }
+  intros u. rewrite (IH _ Hc' u). apply Hs.
+Qed.
+
+(* a store as Entities holds it *)
+Definition store_ok (st : list jentity) : Prop :=
+  Forall (fun e => wf_entity e = true) st /\ has_dup_uid st = false /\
+  Forall (fun e => closed_set st (je_anc e) /\ ~ In (je_uid e) (je_anc e)) st.
+
+Definition same_entity (e e' : jentity) : Prop :=
+  je_uid e' = je_uid e /\ je_attrs e' = je_attrs e /\ je_tags e' = je_tags e /\
+  same_set (je_anc e') (je_anc e).
+
+Lemma entities_back : forall st js, Forall (fun e => wf_entity e = true) st ->
+  jmapM entity_to_json st = JOk js -> emapM (entity_from_json None) js = EOk st.
+Proof.
+  induction st as [|e st IH]; intros js Hwf Hjs.
+  - rewrite jmapM_nil in Hjs. inversion Hjs. reflexivity.
+  - rewrite jmapM_cons in Hjs. destruct (entity_to_json e) as [j|x] eqn:Ej; [|discriminate]. cbn [jbind] in Hjs.
+    destruct (jmapM entity_to_json st) as [js'|x] eqn:El; [|discriminate]. cbn [jbind] in Hjs.
+    inversion Hjs; subst js. inversion Hwf as [|? ? He Hst]; subst.
+    rewrite emapM_cons, (entity_rt e j He Ej). cbn [ebind]. rewrite (IH js' Hst eq_refl). reflexivity.
+Qed.
+
+Definition reclose (st : list jentity) (e : jentity) : jentity :=
+  mkJentity (je_uid e) (je_attrs e) (je_tags e) (anc_iter (List.length st) st (juid_dedup (je_anc e))).
+
+Lemma reclose_same st e : closed_set st (je_anc e) -> same_entity e (reclose st e).
+Proof.
+  intros Hc. unfold same_entity, reclose. cbn [je_uid je_attrs je_tags je_anc]. repeat split; try reflexivity.
+  - intros H. assert (Hd : same_set (juid_dedup (je_anc e)) (je_anc e)) by (intros x; apply juid_dedup_In).
+    apply Hd. revert H. apply anc_iter_same. apply (closed_same st (je_anc e)); [intros x; symmetry; apply Hd | exact Hc].
+  - intros H. assert (Hd : same_set (juid_dedup (je_anc e)) (je_anc e)) by (intros x; apply juid_dedup_In).
+    apply (anc_iter_same st (List.length st) (juid_dedup (je_anc e))).
+    + apply (closed_same st (je_anc e)); [intros x; symmetry; apply Hd | exact Hc].
+    + apply Hd. exact H.
+Qed.
+
+Lemma close_store_ok st : store_ok st ->
+  close_store st = SOk (map (reclose st) st) /\ Forall2 same_entity st (map (reclose st) st).
+Proof.
+  intros [Hwf [Hdup Hcl]]. unfold close_store. fold (reclose st).
+  assert (HF2 : forall l, Forall (fun e => closed_set st (je_anc e) /\ ~ In (je_uid e) (je_anc e)) l ->
+                          Forall2 same_entity l (map (reclose st) l)).
+  { induction 1 as [|e l [Hc _] _ IH]; cbn [map]; constructor; [apply reclose_same; exact Hc | exact IH]. }
+  split; [|apply HF2; exact Hcl].
+  destruct (existsb (fun e => juid_mem (je_uid e) (je_anc e)) (map (reclose st) st)) eqn:E; [|reflexivity].
+  exfalso. apply existsb_exists in E. destruct E as [e' [Hin Hm]]. apply in_map_iff in Hin.
+  destruct Hin as [e [<- Hin]]. rewrite Forall_forall in Hcl. destruct (Hcl e Hin) as [Hc Hnc].
+  apply juid_mem_In in Hm. apply Hnc. destruct (reclose_same st e Hc) as [_ [_ [_ Hs]]].
+  apply Hs. exact Hm.
+Qed.
+
+(* c10_store_rt *)
+Lemma store_rt : forall st j, store_ok st -> store_to_json st = JOk j ->
+  exists st', store_from_json None [] j = SOk st' /\ Forall2 same_entity st st'.
+Proof.
+  intros st j Hok Hj. unfold store_to_json in Hj.
+  destruct (jmapM entity_to_json st) as [js|x] eqn:E; [|discriminate]. cbn [jbind] in Hj. inversion Hj; subst j.
+  destruct Hok as [Hwf [Hdup Hcl]].
+  exists (map (reclose st) st). unfold store_from_json. rewrite (entities_back st js Hwf E). rewrite Hdup.
+  destruct (close_store_ok st (conj Hwf (conj Hdup Hcl))) as [Hc HF2]. rewrite Hc. split; [reflexivity|exact HF2].
+Qed.
+
+(* schema loading: the result is the closed document entities (those not overridden by an equal-uid
+   action of the schema) followed by exactly the schema's action entities *)
+Lemma store_schema_actions : forall sch acts l st',
+  store_from_json (Some sch) acts (JArr l) = SOk st' ->
+  exists es closed,
+    emapM (entity_from_json (Some sch)) l = EOk es /\ close_store es = SOk closed /\
+    st' = filter (fun e => negb (existsb (fun a => juid_eqb (je_uid e) (je_uid a)) acts)) closed ++ acts.
+Proof.
+  intros sch acts l st' H. unfold store_from_json in H.
+  destruct (emapM (entity_from_json (Some sch)) l) as [es|x]; [|discriminate].
+  destruct (has_dup_uid es); [discriminate|].
+  destruct (close_store es) as [closed|x] eqn:Ec; [|discriminate].
+  inversion H. exists es, closed. auto.
+Qed.
+
+Lemma store_schema_actions_in : forall sch acts l st',
+  store_from_json (Some sch) acts (JArr l) = SOk st' ->
+  incl acts st' /\
+  (forall e, In e st' -> In e acts \/
+     (forall a, In a acts -> je_uid a <> je_uid e)).
+Proof.
+  intros sch acts l st' H. destruct (store_schema_actions sch acts l st' H) as [es [closed [_ [_ ->]]]]. split.
+  - intros a Ha. apply in_or_app. right. exact Ha.
+  - intros e He. apply in_app_or in He. destruct He as [He|He]; [right|left; exact He].
+    apply filter_In in He. destruct He as [_ Hn]. intros a Ha Eq.
+    apply negb_true_iff in Hn. assert (Ht : existsb (fun a0 => juid_eqb (je_uid e) (je_uid a0)) acts = true).
+    { apply existsb_exists. exists a. split; [exact Ha | apply juid_eqb_eq; symmetry; exact Eq]. }
+    rewrite Ht in Hn. discriminate.
 Qed.
